@@ -1,1 +1,2 @@
 LINK := full
+KITS := chainkit p2pkit
